@@ -148,6 +148,20 @@ fn fpair(d: &mut Draw, n: usize) -> (Vec<f64>, Vec<f64>, &'static str) {
                     }
                 }
             }
+            3 => {
+                // every component of u has the same magnitude (the diagonal directions): ties in any comparison of components
+                let a = u[0].abs().max(1e-3);
+                for x in u.iter_mut() {
+                    *x = if d.bool() { a } else { -a };
+                }
+                if cls == "parallel" || cls == "antiparallel" {
+                    let k = v[0] / if u[0] != 0.0 { u[0] } else { 1.0 };
+                    let k = if k.is_finite() && k != 0.0 { k } else { 2.0 };
+                    for i in 0..n {
+                        v[i] = u[i] * k.abs() * if cls == "parallel" { 1.0 } else { -1.0 };
+                    }
+                }
+            }
             2 if cls == "generic" => {
                 let (iu, iv) = (d.below(n), d.below(n));
                 for i in 0..n {
